@@ -362,6 +362,28 @@ def check_geo(rec, case):
         c.ev("GeoGrid.node_number/minimal-angular-distance", ok,
              lambda: "query (%r,%r): returned node %d at %r, nearest node %d at %r" % (qlat, qlon, r, dq[r] if 0 <= r < N else None, int(dq.argmin()), m))
 
+    # the same lookup with the query handed over as NumPy scalars of other types (integer-valued queries: int8 / int16 /
+    # uint8 where the value fits, float32, 0-d arrays): the answer depends on the VALUE of the query only
+    for q in case.get("queries", [])[:4]:
+        il, io = int(round(float(q[0]))), int(round(float(q[1])))
+        il, io = max(-90, min(90, il)), max(-127, min(127, io))
+        dq = G.great_circle_to(float(il), float(io), la, lo)
+        m = float(dq.min())
+        forms = [("int8", np.int8(il), np.int8(io)), ("int16", np.int16(il), np.int16(io)),
+                 ("float32", np.float32(il), np.float32(io)), ("0-d array", np.array(float(il)), np.array(float(io)))]
+        if il >= 0 and io >= 0:
+            forms.append(("uint8", np.uint8(il), np.uint8(io)))
+        for nm, a_, b_ in forms:
+            try:
+                with quiet():
+                    r = int(g.node_number(a_, b_))
+            except Exception as e:                                  # noqa
+                c.ev("GeoGrid.node_number/query-as-" + nm, False, "raised %s: %s" % (type(e).__name__, e))
+                continue
+            ok = 0 <= r < N and dq[r] <= m + float(ang_allowance(dq[r])) + float(ang_allowance(m))
+            c.ev("GeoGrid.node_number/query-as-" + nm, ok,
+                 lambda: "query (%r,%r) as %s: returned node %d at %r, nearest at %r" % (il, io, nm, r, dq[r] if 0 <= r < N else None, m))
+
     # region selection: [lon, lat, lon, lat, ...]
     for rg in case.get("regions", []):
         lon0, lon1, lat0, lat1 = rg["lon0"], rg["lon1"], rg["lat0"], rg["lat1"]
@@ -700,7 +722,47 @@ def check_spatialnet(rec, case):
         _close(c, "SpatialNetwork.distance/is-grid-distance", Dn, O, E)
 
 
-CHECKERS = {"geo": check_geo, "euclid": check_euclid, "rect": check_rect, "geonet": check_geonet, "spatialnet": check_spatialnet}
+def check_dense_lookup(rec, case):
+    """Nearest-node lookup on a dense regular grid (neighbouring nodes a few degrees apart: the cosine of the central angle
+    of near nodes differs from 1 by ~1e-3), queries as Python numbers and as NumPy scalars of several types."""
+    from pyunicorn.core.geo_grid import GeoGrid
+    step = float(case["step"])
+    lats = np.arange(-90.0 + step / 2, 90.0, step)
+    lons = np.arange(-180.0, 180.0, step)
+    LA, LO = np.meshgrid(lats, lons, indexing="ij")
+    la, lo = LA.ravel(), LO.ravel()
+    c = Ctx(rec, case, True)
+    with quiet():
+        g = GeoGrid(np.arange(3), la.copy(), lo.copy(), silence_level=3)
+    la32, lo32 = f32(la).astype(float), f32(lo).astype(float)
+    rng = np.random.RandomState(int(case["qseed"]))
+    sla, slo = np.sin(np.radians(la32)), np.sin(np.radians(lo32))
+    cla, clo = np.cos(np.radians(la32)), np.cos(np.radians(lo32))
+    for k in range(int(case["nq"])):
+        il, io = int(rng.randint(-88, 89)), int(rng.randint(-127, 128))
+        ql, qo = np.radians(float(il)), np.radians(float(io))
+        cosd = np.sin(ql) * sla + np.cos(ql) * cla * (np.sin(qo) * slo + np.cos(qo) * clo)
+        dq = np.arccos(np.clip(cosd, -1.0, 1.0))
+        m = float(dq.min())
+        forms = [("python-float", float(il), float(io)), ("int8", np.int8(il), np.int8(io)), ("float32", np.float32(il), np.float32(io)),
+                 ("int16", np.int16(il), np.int16(io))]
+        if il >= 0 and io >= 0:
+            forms.append(("uint8", np.uint8(il), np.uint8(io)))
+        for nm, a_, b_ in forms[k % 2::2] + forms[:1]:
+            try:
+                with quiet():
+                    r = int(g.node_number(a_, b_))
+            except Exception as e:                                  # noqa
+                c.ev("GeoGrid.node_number/dense-grid-query-as-" + nm, False, "raised %s: %s" % (type(e).__name__, e))
+                continue
+            # float32 trigonometry of the library: the cosine of the central angle is good to ~2e-7, i.e. the angle of a near
+            # node to sqrt(4e-7) ~ 6e-4 rad
+            ok = 0 <= r < len(la) and dq[r] <= m + 1.2e-3
+            c.ev("GeoGrid.node_number/dense-grid-query-as-" + nm, ok,
+                 lambda: "query (%d,%d) as %s on a %g-degree grid: returned node at distance %r, nearest at %r" % (il, io, nm, step, float(dq[r]) if 0 <= r < len(la) else None, m))
+
+
+CHECKERS = {"geolookup": check_dense_lookup, "geo": check_geo, "euclid": check_euclid, "rect": check_rect, "geonet": check_geonet, "spatialnet": check_spatialnet}
 
 
 def run_case(case, rec=None):
@@ -923,6 +985,9 @@ def build_cases(tier, seed):
                           "adjacency": A.tolist(), "directed": bool(r % 2)})
     cases.append({"kind": "euclid", "key": "euclid-small-test-grid", "X": [[0, 5, 10, 15, 20, 25], [2.5, 5., 7.5, 10., 12.5, 15.]],
                   "queries": [[14.0, 9.0], [0.0, 0.0], [30.0, 30.0]]})
+    cases.append({"kind": "geolookup", "key": "geolookup-3deg-s%d" % seed, "step": 3.0, "qseed": 5 + seed, "nq": 40 if not thorough else 300})
+    if thorough:
+        cases.append({"kind": "geolookup", "key": "geolookup-2deg-s%d" % seed, "step": 2.0, "qseed": 6 + seed, "nq": 300})
     # --- rectangular grids
     nre = 48 if not thorough else 400
     cases.append({"kind": "rect", "key": "rect-doc", "axes": [[0., 5.], [1., 2.]]})
